@@ -6,6 +6,6 @@ patch="$1"; shift
 cd /repo || exit 2
 if ! git diff --quiet; then echo "/repo has uncommitted changes"; exit 2; fi
 git apply "$patch" || { echo "patch does not apply"; exit 2; }
-trap 'git -C /repo checkout -- . ; git -C /repo clean -fdq -- src examples tests 2>/dev/null' EXIT
+trap 'git -C /repo checkout -- . ; git -C /repo clean -fdq -- src examples tests dict 2>/dev/null' EXIT
 cd /verif
 if [ $# -eq 0 ]; then python3 check.py all 2>&1 | grep -E "VIOLATION|ok tier|FAIL tier"; else for p in "$@"; do python3 check.py "$p" 2>&1 | grep -E "VIOLATION|ok tier|FAIL tier"; done; fi
